@@ -1,6 +1,8 @@
 package main
 
 import (
+	"verif/harness/hk"
+
 	"context"
 	"errors"
 	"fmt"
@@ -17,8 +19,8 @@ import (
 	mcp "trpc.group/trpc-go/trpc-mcp-go"
 )
 
-func init() {
-	register(&Component{Name: "retry", Rule: "validate: full boundary grid (field at min-1,min,mid,max,max+1,extremes; factor incl. NaN/±Inf), non-trivial = some field clamped; " +
+func main() {
+	hk.Main(&hk.Component{Name: "retry", Rule: "validate: full boundary grid (field at min-1,min,mid,max,max+1,extremes; factor incl. NaN/±Inf), non-trivial = some field clamped; " +
 		"classify: every status 100..599 in the real error texts of each transport + network error texts from the real net stack + mixed noise, non-trivial = classified retryable; " +
 		"execute: outcome scripts up to MaxRetries+2 over {success, EOF, 5xx text, 4xx text} x cancel instants with millisecond-scale back-offs on the real clock, non-trivial = at least one retry happened",
 		Run: runRetry})
@@ -46,7 +48,7 @@ func cfgJSON(c mcp.VerifRetryConfig) map[string]any {
 	return map[string]any{"mr": c.MaxRetries, "ib": int64(c.InitialBackoff), "bf": factorJSON(c.BackoffFactor), "mb": int64(c.MaxBackoff)}
 }
 
-func runRetry(c *Ctx) {
+func runRetry(c *hk.Ctx) {
 	retryValidate(c)
 	retryClassify(c)
 	retryExecute(c)
@@ -55,7 +57,7 @@ func runRetry(c *Ctx) {
 	}
 }
 
-func retryValidate(c *Ctx) {
+func retryValidate(c *hk.Ctx) {
 	mrs := []int{math.MinInt64, -5, -1, 0, 1, 5, 10, 11, 1000, math.MaxInt64}
 	ibs := []int64{math.MinInt64, -1, 0, 1, 999999, 1000000, 1000001, 500000000, 30000000000, 30000000001, 1000000000000, math.MaxInt64}
 	bfs := []float64{math.NaN(), math.Inf(-1), math.Inf(1), -1, 0, 0.5, math.Nextafter(1, 0), 1, 1.5, 2, 9.75, 10, math.Nextafter(10, 11), 1e300, -1e300, math.SmallestNonzeroFloat64}
@@ -92,13 +94,13 @@ func retryValidate(c *Ctx) {
 							out.MaxBackoff >= out.InitialBackoff && out.MaxBackoff <= 5*time.Minute {
 							fp = "retry.validate:nan-factor-not-clamped"
 						}
-						c.Violate(Violation{Fingerprint: fp, What: "Validate() result outside the documented ranges", Input: cfgJSON(in), Observed: cfgJSON(out)})
+						c.Violate(hk.Violation{Fingerprint: fp, What: "Validate() result outside the documented ranges", Input: cfgJSON(in), Observed: cfgJSON(out)})
 					}
 					again := mcp.VerifRetryValidate(out)
 					same := again.MaxRetries == out.MaxRetries && again.InitialBackoff == out.InitialBackoff && again.MaxBackoff == out.MaxBackoff &&
 						(again.BackoffFactor == out.BackoffFactor || (math.IsNaN(again.BackoffFactor) && math.IsNaN(out.BackoffFactor)))
 					if !same {
-						c.Violate(Violation{Fingerprint: "retry.validate:not-idempotent", What: "Validate(Validate(c)) != Validate(c)", Input: cfgJSON(in), Observed: cfgJSON(again), Expected: cfgJSON(out)})
+						c.Violate(hk.Violation{Fingerprint: "retry.validate:not-idempotent", What: "Validate(Validate(c)) != Validate(c)", Input: cfgJSON(in), Observed: cfgJSON(again), Expected: cfgJSON(out)})
 					}
 				}
 			}
@@ -113,7 +115,7 @@ func retryValidate(c *Ctx) {
 		got := mcp.VerifClientRetryConfig(cl)
 		in := mcp.VerifRetryConfig{MaxRetries: mr, InitialBackoff: 500 * time.Millisecond, BackoffFactor: 2, MaxBackoff: 8 * time.Second}
 		if got == nil {
-			c.Violate(Violation{Fingerprint: "retry.option:no-config", What: "WithSimpleRetry left no retry configuration", Input: mr})
+			c.Violate(hk.Violation{Fingerprint: "retry.option:no-config", What: "WithSimpleRetry left no retry configuration", Input: mr})
 			continue
 		}
 		c.Emit(map[string]any{"c": "retry.validate", "cfg": cfgJSON(in)}, map[string]any{"cfg": cfgJSON(*got)}, true, "validate-option")
@@ -172,17 +174,17 @@ func isASCII(s string) bool {
 	return true
 }
 
-func retryClassify(c *Ctx) {
+func retryClassify(c *hk.Ctx) {
 	classify := func(msg, kind string, status int) {
 		got := mcp.VerifRetryIsRetryable(errors.New(msg))
 		c.Emit(map[string]any{"c": "retry.classify", "msg": msg}, map[string]any{"retryable": got}, got, "classify-"+kind)
 		// oracle (only-if direction + "never after any other 4xx")
 		if status >= 400 && status <= 499 && status != 408 && status != 409 && status != 429 && got {
 			fp := fmt.Sprintf("retry.classify:%s:4xx-retryable", kind)
-			c.Violate(Violation{Fingerprint: fp, What: "a non-transient 4xx failure is classified retryable", Input: msg, Observed: got})
+			c.Violate(hk.Violation{Fingerprint: fp, What: "a non-transient 4xx failure is classified retryable", Input: msg, Observed: got})
 		}
 		if (status == 408 || status == 409 || status == 429 || status == 500 || status == 502 || status == 503 || status == 504) && !got && (kind == "streamable" || kind == "sse") {
-			c.Violate(Violation{Fingerprint: fmt.Sprintf("retry.classify:%s:transient-not-retried:%d", kind, status), What: "a transient status is not classified retryable", Input: msg, Observed: got})
+			c.Violate(hk.Violation{Fingerprint: fmt.Sprintf("retry.classify:%s:transient-not-retried:%d", kind, status), What: "a transient status is not classified retryable", Input: msg, Observed: got})
 		}
 	}
 	for n := 100; n <= 599; n++ {
@@ -243,7 +245,7 @@ func (s *scriptedOp) call() error {
 	return errors.New(s.outs[i].(string))
 }
 
-func retryExecute(c *Ctx) {
+func retryExecute(c *hk.Ctx) {
 	ms := int64(time.Millisecond)
 	type cas struct {
 		cfg    *mcp.VerifRetryConfig
@@ -343,7 +345,7 @@ func retryExecute(c *Ctx) {
 	}
 }
 
-func runExecuteCase(c *Ctx, cfg *mcp.VerifRetryConfig, script []any, cancelAt *int64) (r struct {
+func runExecuteCase(c *hk.Ctx, cfg *mcp.VerifRetryConfig, script []any, cancelAt *int64) (r struct {
 	op   map[string]any
 	impl map[string]any
 	nt   bool
@@ -394,17 +396,17 @@ func runExecuteCase(c *Ctx, cfg *mcp.VerifRetryConfig, script []any, cancelAt *i
 	r.nt = len(op.times) > 1
 	// implementation-level oracles that need no model
 	if cfg != nil && cfg.MaxRetries >= 0 && len(op.times) > cfg.MaxRetries+1 {
-		c.Violate(Violation{Fingerprint: "retry.execute:too-many-attempts", What: "more than MaxRetries+1 attempts", Input: r.op, Observed: r.impl})
+		c.Violate(hk.Violation{Fingerprint: "retry.execute:too-many-attempts", What: "more than MaxRetries+1 attempts", Input: r.op, Observed: r.impl})
 	}
 	if cfg == nil && len(op.times) != 1 {
-		c.Violate(Violation{Fingerprint: "retry.execute:no-option-not-once", What: "without retry configuration the operation did not run exactly once", Input: r.op, Observed: r.impl})
+		c.Violate(hk.Violation{Fingerprint: "retry.execute:no-option-not-once", What: "without retry configuration the operation did not run exactly once", Input: r.op, Observed: r.impl})
 	}
 	for i := 0; i+1 < len(op.times); i++ {
 		if i < len(script) && script[i] == nil {
-			c.Violate(Violation{Fingerprint: "retry.execute:retry-after-success", What: "another attempt after a success", Input: r.op, Observed: r.impl})
+			c.Violate(hk.Violation{Fingerprint: "retry.execute:retry-after-success", What: "another attempt after a success", Input: r.op, Observed: r.impl})
 		}
 		if i < len(script) && script[i] != nil && strings.Contains(script[i].(string), "status code 404") {
-			c.Violate(Violation{Fingerprint: "retry.execute:retry-after-4xx", What: "another attempt after a non-transient failure", Input: r.op, Observed: r.impl})
+			c.Violate(hk.Violation{Fingerprint: "retry.execute:retry-after-4xx", What: "another attempt after a non-transient failure", Input: r.op, Observed: r.impl})
 		}
 	}
 	return
@@ -412,7 +414,7 @@ func runExecuteCase(c *Ctx, cfg *mcp.VerifRetryConfig, script []any, cancelAt *i
 
 // retryOverflowReachable runs the reachable D28 configuration for real (≈ 84 s): 9.3 s initial, factor 10, 10 retries, cap 9.3 s.
 // The 10th wait must be the cap (9.3 s), not zero.
-func retryOverflowReachable(c *Ctx) {
+func retryOverflowReachable(c *hk.Ctx) {
 	cfg := mcp.VerifRetryValidate(mcp.VerifRetryConfig{MaxRetries: 10, InitialBackoff: 9300 * time.Millisecond, BackoffFactor: 10, MaxBackoff: 9300 * time.Millisecond})
 	script := []any{}
 	for i := 0; i < 11; i++ {
@@ -428,7 +430,7 @@ func retryOverflowReachable(c *Ctx) {
 	c.Count("overflow-reachable", true, map[string]any{"cfg": cfgJSON(cfg), "gaps_ns": gaps}, "execute-overflow-reachable")
 	for k, g := range gaps {
 		if g < int64(9300*time.Millisecond) {
-			c.Violate(Violation{Fingerprint: "retry.execute:wait-collapses-on-overflow", What: fmt.Sprintf("wait %d of a validated configuration was %d ns instead of the 9.3 s cap", k+1, g),
+			c.Violate(hk.Violation{Fingerprint: "retry.execute:wait-collapses-on-overflow", What: fmt.Sprintf("wait %d of a validated configuration was %d ns instead of the 9.3 s cap", k+1, g),
 				Input: map[string]any{"cfg": cfgJSON(cfg), "script": "11 x EOF"}, Observed: gaps})
 			break
 		}
